@@ -21,12 +21,10 @@ package c04
 import (
 	"errors"
 	"fmt"
-	"os"
 	"regexp"
 	"runtime"
 	"sort"
 	"strings"
-	"sync"
 	"syscall"
 	"time"
 
@@ -92,22 +90,8 @@ type worker struct {
 	flagged []flagged
 }
 
-// limitMemory caps the address space of the worker child (not under the race
-// detector, which needs a large shadow mapping), so that a build that tries to
-// allocate tens of gigabytes dies at once with "out of memory" (a process death
-// attributed to the input) instead of thrashing until the watchdog fires.
-var limitMemory = sync.OnceFunc(func() {
-	if os.Getenv("VERIF_RACELOG") != "" {
-		return
-	}
-	lim := syscall.Rlimit{Cur: addressSpaceLimit, Max: addressSpaceLimit}
-	syscall.Setrlimit(syscall.RLIMIT_AS, &lim)
-})
-
-const addressSpaceLimit = 8 << 30
-
 func (prop) Work(c core.Case) core.Result {
-	limitMemory()
+	bytesgen.LimitAddressSpace()
 	var cd caseData
 	c.Decode(&cd)
 	w := &worker{leaked: leakedIDs, counts: map[string]int64{}, sigs: map[string]struct{}{}}
